@@ -10,7 +10,9 @@ import (
 	"path/filepath"
 	"strings"
 	"sync"
+	"sync/atomic"
 	"testing"
+	"time"
 
 	"github.com/tonistiigi/fsutil"
 	"github.com/tonistiigi/fsutil/types"
@@ -55,6 +57,10 @@ type c03JailArg struct {
 	Mode     string       `json:"mode"`
 	Script   h.SendScript `json:"script"`
 	Capacity int          `json:"capacity"`
+	// SteerChmod: hold the content writer between "made the read-only file writable"
+	// and "opened it" until the mode has been changed back by someone else (a hard
+	// link to the same inode getting its metadata), bounded
+	SteerChmod bool `json:"steer_chmod,omitempty"`
 }
 
 type c03JailResult struct {
@@ -64,6 +70,10 @@ type c03JailResult struct {
 	FinSeen   bool     `json:"finseen"`
 	Sent      int      `json:"sent"`
 	SentStats int      `json:"sentstats"` // STAT packets (without markers) the hostile sender got out before it stopped
+	// steering diagnostics: how often the writer was held between chmod and open,
+	// and how often its write permission was revoked meanwhile
+	HookCalls   int `json:"hookcalls"`
+	HookRevoked int `json:"hookrevoked"`
 }
 
 // jailReceive runs inside the chroot.
@@ -75,6 +85,20 @@ func jailReceive(raw json.RawMessage) (any, error) {
 	stats := make([]*types.Stat, len(a.Stats))
 	for i := range a.Stats {
 		stats[i] = a.Stats[i].stat()
+	}
+	var hookCalls, hookRevoked int32
+	if a.SteerChmod {
+		fsutil.VerifAfterWriterChmod = func(p string) {
+			atomic.AddInt32(&hookCalls, 1)
+			for i := 0; i < 400; i++ {
+				if fi, err := os.Lstat(p); err != nil || fi.Mode()&0o200 == 0 {
+					atomic.AddInt32(&hookRevoked, 1)
+					return
+				}
+				time.Sleep(50 * time.Microsecond)
+			}
+		}
+		defer func() { fsutil.VerifAfterWriterChmod = nil }()
 	}
 	pair := h.NewPair(context.Background(), a.Capacity)
 	opt := fsutil.ReceiveOpt{Merge: strings.Contains(a.Mode, "merge")}
@@ -115,6 +139,7 @@ func jailReceive(raw json.RawMessage) (any, error) {
 		res.RecvErr = recvErr.Error()
 	}
 	res.Reqs, res.FinSeen, res.Sent, res.SentStats = sr.Reqs, sr.FinSeen, sr.PacketsSent, sr.SentStats
+	res.HookCalls, res.HookRevoked = int(atomic.LoadInt32(&hookCalls)), int(atomic.LoadInt32(&hookRevoked))
 	return res, nil
 }
 
